@@ -2,8 +2,8 @@
 """Translator for C05: parses aioquic's receive path with `ast` and emits
 lean/AQ/Gen/RecvTables.lean:
 
-  * the frame handler table of QuicConnection.__init__ (type -> handler name,
-    allowed epochs),
+  * the frame handler table (type -> handler name, allowed epochs) — by EVALUATION: read from
+    `conn._QuicConnection__frame_handlers` of a connection constructed in the tree under test,
   * NON_ACK_ELICITING_FRAME_TYPES, PROBING_FRAME_TYPES (packet.py),
   * END_STATES,
   * every `except` clause on the receive path: which exception classes are
@@ -20,46 +20,112 @@ import os
 import re
 import sys
 
+import json
+import subprocess
+
 HERE = os.path.dirname(os.path.dirname(os.path.abspath(__file__)))
+sys.path.insert(0, os.path.join(HERE, "tools"))
+import ast_normalize  # noqa: E402
+
+# the methods of QuicConnection that are units of the models (or deliberately outside them).  A
+# private method that is NOT listed here is a helper somebody factored out: it is inlined at its
+# call sites before the structure of the extracted functions is classified.
+KNOWN_METHODS = """__init__ configuration original_destination_connection_id change_connection_id close connect
+datagrams_to_send get_next_available_stream_id get_timer handle_timer next_event _idle_timeout receive_datagram
+request_key_update reset_stream send_ping send_datagram_frame send_stream_data stop_stream _alpn_handler
+_assert_stream_can_receive _assert_stream_can_send _consume_peer_cid _close_begin _close_end _connect _discard_epoch
+_find_network_path _get_or_create_stream _get_or_create_stream_for_send _handle_session_ticket _initialize
+_handle_ack_frame _handle_connection_close_frame _handle_crypto_frame _handle_data_blocked_frame
+_handle_datagram_frame _handle_handshake_done_frame _handle_max_data_frame _handle_max_stream_data_frame
+_handle_max_streams_bidi_frame _handle_max_streams_uni_frame _handle_new_connection_id_frame _handle_new_token_frame
+_handle_padding_frame _handle_path_challenge_frame _handle_path_response_frame _handle_ping_frame
+_handle_reset_stream_frame _handle_retire_connection_id_frame _handle_stop_sending_frame _handle_stream_frame
+_handle_stream_data_blocked_frame _handle_streams_blocked_frame _log_key_retired _log_key_updated _on_ack_delivery
+_on_connection_limit_delivery _on_handshake_done_delivery _on_max_stream_data_delivery _on_new_connection_id_delivery
+_on_ping_delivery _on_retire_connection_id_delivery _payload_received _receive_retry_packet
+_receive_version_negotiation_packet _replenish_connection_ids _retire_peer_cid _push_crypto_data _send_probe
+_parse_transport_parameters _serialize_transport_parameters _set_state _stream_can_receive _stream_can_send
+_unblock_streams _update_traffic_key _add_local_challenge _write_application _write_handshake _write_ack_frame
+_write_connection_close_frame _write_connection_limits _write_crypto_frame _write_datagram_frame
+_write_handshake_done_frame _write_new_connection_id_frame _write_path_challenge_frame _write_path_response_frame
+_write_ping_frame _write_reset_stream_frame _write_retire_connection_id_frame _write_stop_sending_frame
+_write_stream_frame _write_stream_limits _write_streams_blocked_frame""".split()
+
+EVAL_SCRIPT = r"""
+import builtins, json
+from aioquic.quic.configuration import QuicConfiguration
+from aioquic.quic import connection as C, packet as P, crypto as K, stream as S, packet_builder as B
+from aioquic import tls as T, buffer as F
+conn = C.QuicConnection(configuration=QuicConfiguration(is_client=True))
+table = getattr(conn, "_QuicConnection__frame_handlers")
+order = ["INITIAL", "HANDSHAKE", "ZERO_RTT", "ONE_RTT"]
+rows = []
+for t in sorted(table):
+    h, eps = table[t]
+    if getattr(h, "__self__", None) is not conn:
+        raise SystemExit("handler of frame type %r is not a bound method of the connection" % t)
+    names = sorted((e.name for e in eps), key=order.index)
+    rows.append([int(t), h.__func__.__name__, names])
+def find(name):
+    for m in (C, P, K, S, B, T, F, builtins):
+        if isinstance(getattr(m, name, None), type):
+            return getattr(m, name)
+    raise SystemExit("unknown exception class " + name)
+anc = {}
+for name in CLASSES:
+    anc[name] = [c.__name__ for c in find(name).__mro__ if c not in (object, BaseException)]
+print(json.dumps({
+    "rows": rows,
+    "nae": sorted(int(x) for x in P.NON_ACK_ELICITING_FRAME_TYPES),
+    "probing": sorted(int(x) for x in P.PROBING_FRAME_TYPES),
+    "end_states": [s.name for s in sorted(C.END_STATES, key=lambda s: s.value)],
+    "error_codes": [[e.name, int(e)] for e in P.QuicErrorCode],
+    "frame_types": {e.name: int(e) for e in P.QuicFrameType},
+    "ancestors": anc,
+}))
+"""
+
+
+def evaluate(pythonpath, classes):
+    """EVALUATION instead of syntax: the frame-handler table (type -> handler method, allowed epochs),
+    the frame-type sets, END_STATES, the error codes and the exception hierarchy are read from the
+    imported modules / a constructed connection of the tree under test"""
+    env = dict(os.environ, PYTHONPATH=pythonpath)
+    code = "CLASSES = %r\n%s" % (sorted(classes), EVAL_SCRIPT)
+    r = subprocess.run([sys.executable, "-c", code], capture_output=True, text=True, env=env, cwd="/")
+    if r.returncode != 0:
+        raise ExtractError("evaluation of the tree failed: " + (r.stderr or r.stdout)[-600:])
+    return json.loads(r.stdout.strip().splitlines()[-1])
+
+
+def norm_method(conn, name, ifelse=False):
+    """method `name` of QuicConnection after normalisation (helpers inlined, aliases, flag idiom)"""
+    for node in conn.body:
+        if isinstance(node, ast.ClassDef) and node.name == "QuicConnection":
+            try:
+                fn, _ = ast_normalize.normalize(node, find_method(conn, "QuicConnection", name), KNOWN_METHODS,
+                                                ifelse=ifelse)
+            except ast_normalize.NormalizeError as e:
+                raise ExtractError(f"{name}: cannot normalise: {e}")
+            return fn
+    raise ExtractError("class QuicConnection")
 
 
 class ExtractError(Exception):
     pass
 
 
-def enum_values(tree, cls):
-    for node in tree.body:
-        if isinstance(node, ast.ClassDef) and node.name == cls:
-            out = {}
-            for st in node.body:
-                if isinstance(st, ast.Assign) and isinstance(st.value, ast.Constant):
-                    out[st.targets[0].id] = st.value.value
-            return out
-    raise ExtractError(cls)
-
-
 def const_value(node, enums):
-    """int value of Constant / QuicFrameType.X / QuicErrorCode.X / a + b"""
+    """Constant -> its value; QuicErrorCode.X -> "X" (resolved by evaluation later); a + b -> a"""
     if isinstance(node, ast.Constant):
         return node.value
-    if isinstance(node, ast.Attribute) and isinstance(node.value, ast.Name) and node.value.id in enums:
-        return enums[node.value.id][node.attr]
+    if isinstance(node, ast.Attribute) and isinstance(node.value, ast.Name) and node.value.id == "QuicErrorCode":
+        return node.attr
     if isinstance(node, ast.BinOp) and isinstance(node.op, ast.Add):
         a = const_value(node.left, enums)
         if a is not None:
             return a     # CRYPTO_ERROR + alert description: the base code
     return None
-
-
-def frozenset_members(tree, name, enums):
-    for node in tree.body:
-        if isinstance(node, ast.Assign) and getattr(node.targets[0], "id", None) == name:
-            call = node.value
-            if not (isinstance(call, ast.Call) and call.func.id == "frozenset"):
-                raise ExtractError(name)
-            return [const_value(e, enums) if not (isinstance(e, ast.Attribute) and e.value.id == "QuicConnectionState")
-                    else e.attr for e in call.args[0].elts]
-    raise ExtractError(name)
 
 
 def find_method(tree, cls, name):
@@ -69,21 +135,6 @@ def find_method(tree, cls, name):
                 if isinstance(st, ast.FunctionDef) and st.name == name:
                     return st
     raise ExtractError(f"{cls}.{name}")
-
-
-def handler_table(init, enums, shortcuts):
-    for st in ast.walk(init):
-        if isinstance(st, ast.Assign) and isinstance(st.targets[0], ast.Attribute) and \
-                st.targets[0].attr.endswith("__frame_handlers"):
-            rows = []
-            for k, v in zip(st.value.keys, st.value.values):
-                ftype = const_value(k, enums)
-                h, ep = v.elts
-                if not (isinstance(h, ast.Attribute) and isinstance(ep, ast.Call) and ep.func.id == "EPOCHS"):
-                    raise ExtractError("handler row")
-                rows.append((ftype, h.attr, [shortcuts[c] for c in ep.args[0].value]))
-            return rows
-    raise ExtractError("__frame_handlers")
 
 
 def exc_names(t):
@@ -151,39 +202,10 @@ def except_clauses(fn, enums):
     return out
 
 
-def class_bases(trees, c_sources):
-    bases = {}
-    for tree in trees:
-        for node in ast.walk(tree):
-            if isinstance(node, ast.ClassDef) and node.bases:
-                b = node.bases[0]
-                bases[node.name] = b.attr if isinstance(b, ast.Attribute) else getattr(b, "id", "?")
-    for src in c_sources:
-        for m in re.finditer(r'PyErr_NewException\(MODULE_NAME "\.(\w+)",\s*PyExc_(\w+)', src):
-            bases[m.group(1)] = m.group(2)
-    builtin = {"ValueError": "Exception", "KeyError": "LookupError", "IndexError": "LookupError",
-               "LookupError": "Exception", "UnicodeDecodeError": "UnicodeError", "UnicodeError": "ValueError",
-               "AssertionError": "Exception", "TypeError": "Exception", "OverflowError": "ArithmeticError",
-               "ArithmeticError": "Exception", "UnboundLocalError": "NameError", "NameError": "Exception",
-               "NotImplementedError": "RuntimeError", "RuntimeError": "Exception", "AttributeError": "Exception",
-               "MemoryError": "Exception", "RecursionError": "RuntimeError"}
-    for k, v in builtin.items():
-        bases.setdefault(k, v)
-    return bases
-
-
-def ancestors(cls, bases):
-    out = [cls]
-    while cls in bases and bases[cls] not in out:
-        cls = bases[cls]
-        out.append(cls)
-    return out
-
-
 def close_start_packet_guarded(conn):
     """datagrams_to_send, close path: is the `builder.start_packet(...)` call inside the
     `try … except QuicPacketBuilderStop` that guards `_write_connection_close_frame`?"""
-    fn = find_method(conn, "QuicConnection", "datagrams_to_send")
+    fn = norm_method(conn, "datagrams_to_send")
     found = None
     for n in ast.walk(fn):
         if isinstance(n, ast.Try) and n.handlers and guarded_call(n) == "_write_connection_close_frame":
@@ -208,14 +230,23 @@ def alpn_lookup_guarded(conn):
     """`_alpn_handler` (TLS callback, runs inside receive_datagram): every subscript of
     `self._cryptos_initial[...]` — a dict keyed by configuration.supported_versions — sits under an
     `if`/`elif` whose test contains `<x> in self._configuration.supported_versions`"""
-    fn = find_method(conn, "QuicConnection", "_alpn_handler")
+    fn = norm_method(conn, "_alpn_handler", ifelse=True)
 
     def tests_membership(test):
-        for n in ast.walk(test):
-            if isinstance(n, ast.Compare) and any(isinstance(o, ast.In) for o in n.ops):
-                if any(isinstance(c, ast.Attribute) and c.attr == "supported_versions" for c in n.comparators):
-                    return True
-        return False
+        """+1: the test implies membership in supported_versions, -1: it implies non-membership"""
+        if isinstance(test, ast.UnaryOp) and isinstance(test.op, ast.Not):
+            return -tests_membership(test.operand)
+        if isinstance(test, ast.BoolOp) and isinstance(test.op, ast.And):
+            return 1 if any(tests_membership(v) == 1 for v in test.values) else 0
+        if isinstance(test, ast.BoolOp) and isinstance(test.op, ast.Or):
+            return -1 if any(tests_membership(v) == -1 for v in test.values) and len(test.values) == 1 else 0
+        if isinstance(test, ast.Compare) and len(test.ops) == 1 and any(
+                isinstance(c, ast.Attribute) and c.attr == "supported_versions" for c in test.comparators):
+            if isinstance(test.ops[0], ast.In):
+                return 1
+            if isinstance(test.ops[0], ast.NotIn):
+                return -1
+        return 0
 
     ok = True
     seen = False
@@ -224,8 +255,9 @@ def alpn_lookup_guarded(conn):
         nonlocal ok, seen
         for st in stmts:
             if isinstance(st, ast.If):
-                walk(st.body, guarded or tests_membership(st.test))
-                walk(st.orelse, guarded)
+                m = tests_membership(st.test)
+                walk(st.body, guarded or m == 1)
+                walk(st.orelse, guarded or m == -1)
             elif isinstance(st, (ast.For, ast.While, ast.With, ast.Try)):
                 walk(st.body, guarded)
                 walk(getattr(st, "orelse", []), guarded)
@@ -247,7 +279,7 @@ def change_cid_raises(conn):
     by situation: "empty" (no spare peer CID), "available", "always".  A `raise` (or the unguarded
     `pop(0)` of `_consume_peer_cid`) is attributed to the branch of the `if self._peer_cid_available`
     test it sits in."""
-    fn = find_method(conn, "QuicConnection", "change_connection_id")
+    fn = norm_method(conn, "change_connection_id")
     out = []
 
     def is_avail(t):
@@ -293,7 +325,7 @@ def change_cid_raises(conn):
     walk(fn.body, "always")
     # the helpers it calls must not raise on their own
     for helper in ("_retire_peer_cid", "_consume_peer_cid"):
-        h = find_method(conn, "QuicConnection", helper)
+        h = norm_method(conn, helper)
         for n in ast.walk(h):
             if isinstance(n, (ast.Raise, ast.Assert)):
                 out.append(("always", "Exception"))
@@ -306,36 +338,27 @@ FUNCS = ["receive_datagram", "_payload_received", "_handle_crypto_frame", "_hand
          "_parse_transport_parameters", "next_event", "datagrams_to_send", "_write_application"]
 
 
-def generate(repo):
+def generate(repo, pythonpath=None):
     src = os.path.join(repo, "src", "aioquic")
-    conn_src = open(os.path.join(src, "quic", "connection.py")).read()
-    pkt_src = open(os.path.join(src, "quic", "packet.py")).read()
-    conn = ast.parse(conn_src)
-    pkt = ast.parse(pkt_src)
-    others = [ast.parse(open(os.path.join(src, p)).read()) for p in
-              ("quic/stream.py", "quic/crypto.py", "quic/packet_builder.py", "tls.py")]
-    c_sources = [open(os.path.join(src, p)).read() for p in ("_buffer.c", "_crypto.c")]
-    enums = {"QuicFrameType": enum_values(pkt, "QuicFrameType"), "QuicErrorCode": enum_values(pkt, "QuicErrorCode")}
-    shortcuts = {}
-    for node in conn.body:
-        if isinstance(node, ast.Assign) and getattr(node.targets[0], "id", None) == "EPOCH_SHORTCUTS":
-            for k, v in zip(node.value.keys, node.value.values):
-                shortcuts[k.value] = v.attr
-    if sorted(shortcuts) != ["0", "1", "H", "I"]:
-        raise ExtractError("EPOCH_SHORTCUTS")
-    rows = handler_table(find_method(conn, "QuicConnection", "__init__"), enums, shortcuts)
-    nae = sorted(frozenset_members(pkt, "NON_ACK_ELICITING_FRAME_TYPES", enums))
-    prob = sorted(frozenset_members(pkt, "PROBING_FRAME_TYPES", enums))
-    end_states = frozenset_members(conn, "END_STATES", enums)
+    conn = ast.parse(open(os.path.join(src, "quic", "connection.py")).read())
     clauses = []
     for f in FUNCS:
-        clauses += except_clauses(find_method(conn, "QuicConnection", f), enums)
-    bases = class_bases([conn, pkt] + others, c_sources)
+        clauses += [(FUNCS.index(f),) + c for c in except_clauses(norm_method(conn, f), None)]
+    # canonical order: by function, then by guarded call; clauses of one try keep their source order
+    # (first match wins), tries guarding the same call keep the order of the normalised source
+    clauses = [c[1:] for c in sorted(clauses, key=lambda c: (c[0], c[2]))]
     classes = sorted({c for _, _, c, _, _ in clauses} | {
         "BufferReadError", "BufferWriteError", "StreamFinishedError", "FinalSizeError", "QuicConnectionError", "Alert",
         "QuicPacketBuilderStop", "CryptoError", "KeyUnavailableError", "ValueError", "KeyError", "IndexError",
         "AssertionError", "TypeError", "UnicodeDecodeError", "OverflowError", "UnboundLocalError",
         "NotImplementedError", "AttributeError", "MemoryError", "RecursionError"})
+    ev = evaluate(pythonpath or os.path.join(repo, "src"), classes)
+    rows = [(t, h, ep) for t, h, ep in ev["rows"]]
+    nae, prob, end_states = ev["nae"], ev["probing"], ev["end_states"]
+    anc = ev["ancestors"]
+    # error codes of `raise QuicConnectionError(error_code=QuicErrorCode.X)` in the clauses: by name
+    codes = dict(ev["error_codes"])
+    clauses = [(fn, g, cls, act, codes[code] if isinstance(code, str) else code) for fn, g, cls, act, code in clauses]
     L = []
     L.append("/- GENERATED by tools/extract_recv.py from src/aioquic/quic/{connection,packet}.py — do not edit. -/")
     L.append("namespace AQ.Gen.Recv")
@@ -368,7 +391,7 @@ def generate(repo):
     L.append("")
     L.append("/-- exception class, its ancestors (nearest first, itself included) -/")
     L.append("def ancestors : List (String × List String) := [")
-    L.append(",\n".join('  ("%s", [%s])' % (c, ", ".join('"%s"' % a for a in ancestors(c, bases))) for c in classes))
+    L.append(",\n".join('  ("%s", [%s])' % (c, ", ".join('"%s"' % a for a in anc[c])) for c in classes))
     L.append("]")
     L.append("")
     L.append("/-- `_alpn_handler`: the `_cryptos_initial[version]` lookup is guarded by")
@@ -384,8 +407,7 @@ def generate(repo):
     L.append("def changeCidRaises : List (String × String) := [%s]" % ", ".join(
         '("%s", "%s")' % x for x in change_cid_raises(conn)))
     L.append("")
-    ec = enums["QuicErrorCode"]
-    L.append("def errorCodes : List (String × Nat) := [%s]" % ", ".join('("%s", 0x%X)' % (k, v) for k, v in ec.items()))
+    L.append("def errorCodes : List (String × Nat) := [%s]" % ", ".join('("%s", 0x%X)' % (k, v) for k, v in ev["error_codes"]))
     L.append("")
     L.append("end AQ.Gen.Recv")
     return "\n".join(L) + "\n"
@@ -395,9 +417,10 @@ def main():
     ap = argparse.ArgumentParser()
     ap.add_argument("--repo", default=os.environ.get("VERIF_REPO", "/repo"))
     ap.add_argument("--out", default=os.path.join(HERE, "lean", "AQ", "Gen", "RecvTables.lean"))
+    ap.add_argument("--pythonpath", default=None, help="where to import the tree's aioquic from (default <repo>/src)")
     ap.add_argument("--check", action="store_true")
     a = ap.parse_args()
-    text = generate(a.repo)
+    text = generate(a.repo, a.pythonpath)
     old = open(a.out).read() if os.path.exists(a.out) else None
     if a.check:
         sys.exit(0 if old == text else 1)
